@@ -30,6 +30,18 @@ pub struct Spec {
     /// differential mode: every history is also executed under this configuration and the
     /// API-level observations must be identical (class "backend.diff")
     pub diff_cfg: Option<Box<dyn Fn(&Config) -> Config + Send + Sync>>,
+    /// C02: non-consuming ops applied to every reached state, differentially
+    pub probe: Option<ProbeSpec>,
+    /// every reached state is additionally extended by these op lists (not part of the
+    /// frontier) and the model is stepped through them: e.g. [Restart, Drain a, Drain b]
+    pub tails: Vec<Vec<Op>>,
+}
+
+pub struct ProbeSpec {
+    /// the non-consuming ops to try at a state (may depend on the model)
+    pub peeks: Box<dyn Fn(&Model) -> Vec<Op> + Send + Sync>,
+    /// observation suffixes: the same suffix is executed with and without the peek
+    pub suffixes: Vec<Vec<Op>>,
 }
 
 #[derive(Clone)]
@@ -187,7 +199,7 @@ pub fn explore(pool: &Pool, spec: &Spec, kf: &Known) -> Outcome {
             let mut model = Model::new(cfg, multi, geom.max_alloc);
             let mut bad: Option<Discrepancy> = None;
             if res.status != "ok" {
-                bad = Some(Discrepancy { class: "crash", detail: format!("child {} in root", res.status) });
+                bad = Some(Discrepancy { pure_loss: false, pure_redelivery: false, class: "crash", detail: format!("child {} in root", res.status) });
             } else {
                 for (op, ob) in job.ops.iter().zip(res.obs.iter()) {
                     let pre = model.clone();
@@ -204,7 +216,7 @@ pub fn explore(pool: &Pool, spec: &Spec, kf: &Known) -> Outcome {
                 }
             }
             if let Some(x) = bad {
-                handle_bad(pool, spec, kf, cfg, job, res, &model, x, &mut stats, &mut violations, &mut known_lines);
+                handle_bad(pool, spec, kf, cfg, job, res, &model, x, job.ops.len().saturating_sub(1), &mut stats, &mut violations, &mut known_lines);
                 continue;
             }
             if model.broken {
@@ -219,6 +231,12 @@ pub fn explore(pool: &Pool, spec: &Spec, kf: &Known) -> Outcome {
             }
         }
 
+        if let Some(ps) = &spec.probe {
+            run_probes(pool, spec, ps, kf, cfg, &frontier, &mut jid, &mut stats, &mut violations, &mut known_lines);
+        }
+        if !spec.tails.is_empty() {
+            run_tails(pool, spec, kf, cfg, &frontier, &mut jid, &mut stats, &mut violations, &mut known_lines);
+        }
         let mut depth = 0usize;
         let mut capped = false;
         while depth < spec.max_depth && !frontier.is_empty() && violations.len() < max_violations {
@@ -280,7 +298,7 @@ pub fn explore(pool: &Pool, spec: &Spec, kf: &Known) -> Outcome {
                     let mut bad: Option<Discrepancy> = None;
                     let mut all_ds: Vec<Discrepancy> = Vec::new();
                     if res.status != "ok" {
-                        bad = Some(Discrepancy {
+                        bad = Some(Discrepancy { pure_loss: false, pure_redelivery: false,
                             class: "crash",
                             detail: format!(
                                 "engine process {} during op #{} ({})",
@@ -309,7 +327,7 @@ pub fn explore(pool: &Pool, spec: &Spec, kf: &Known) -> Outcome {
                         }
                         if let Some(r2) = results2.as_ref().map(|v| &v[ri]) {
                             if let Some(msg) = diff_obs(res, r2) {
-                                all_ds.push(Discrepancy { class: "backend.diff", detail: msg });
+                                all_ds.push(Discrepancy { class: "backend.diff", detail: msg, pure_loss: false, pure_redelivery: false });
                             }
                         }
                         // a core FIFO discrepancy that this check does not own makes every
@@ -322,7 +340,7 @@ pub fn explore(pool: &Pool, spec: &Spec, kf: &Known) -> Outcome {
                         }
                     }
                     if let Some(x) = bad {
-                        handle_bad(pool, spec, kf, cfg, job, res, &node.model, x, &mut stats, &mut violations, &mut known_lines);
+                        handle_bad(pool, spec, kf, cfg, job, res, &node.model, x, job.ops.len().saturating_sub(1), &mut stats, &mut violations, &mut known_lines);
                         continue;
                     }
                     if model.broken || res.status != "ok" {
@@ -366,6 +384,19 @@ pub fn explore(pool: &Pool, spec: &Spec, kf: &Known) -> Outcome {
             }
             stats.depth_reached = stats.depth_reached.max(depth);
             frontier = next;
+            if !spec.tails.is_empty() {
+                run_tails(pool, spec, kf, cfg, &frontier, &mut jid, &mut stats, &mut violations, &mut known_lines);
+            }
+            if let Some(ps) = &spec.probe {
+                if t0.elapsed().as_secs_f64() <= cfg_deadline {
+                    run_probes(pool, spec, ps, kf, cfg, &frontier, &mut jid, &mut stats, &mut violations, &mut known_lines);
+                } else {
+                    capped = true;
+                    stats.exhaustive = false;
+                    stats.cap_hit = Some(format!("time cap hit before probing depth {} states in {}", depth, cfg_label));
+                    break;
+                }
+            }
         }
         let completed = if capped { depth.saturating_sub(1) } else { depth };
         if cfg_i == 0 || completed < stats.max_depth_completed {
@@ -391,12 +422,14 @@ fn handle_bad(
     res: &JobResult,
     pre_model: &Model,
     x: Discrepancy,
+    fail_at: usize,
     stats: &mut Stats,
     violations: &mut Vec<(Violation, String)>,
     known_lines: &mut Vec<String>,
 ) {
     // known finding?
-    if let Some(kid) = known::classify(kf, spec.prop, cfg, &job.ops, res, pre_model, &x) {
+    let upto = (fail_at + 1).min(job.ops.len());
+    if let Some(kid) = known::classify(kf, spec.prop, cfg, &job.ops[..upto], res, pre_model, &x) {
         stats.pruned_known += 1;
         let c = stats.known_hits.entry(kid.clone()).or_insert(0);
         *c += 1;
@@ -430,4 +463,232 @@ fn handle_bad(
     };
     let path = write_replay(&v);
     violations.push((v, path));
+}
+
+
+fn consuming_twin(op: &Op) -> Option<Op> {
+    match op {
+        Op::ReadNext { t, ckpt: false } => Some(Op::ReadNext { t: *t, ckpt: true }),
+        Op::BatchRead { t, budget, ckpt: false, start: None } => {
+            Some(Op::BatchRead { t: *t, budget: *budget, ckpt: true, start: None })
+        }
+        _ => None,
+    }
+}
+
+/// C02 oracles on every state of `nodes`:
+///  (ii) a peek / offset read followed by an observation suffix gives the same suffix
+///       observations as the suffix alone;
+///  (iii) a peek returns exactly what the immediately following consuming read with the
+///        same arguments returns;
+///  (iv) content of offset reads (through the model, class offset.content).
+#[allow(clippy::too_many_arguments)]
+fn run_probes(
+    pool: &Pool,
+    spec: &Spec,
+    ps: &ProbeSpec,
+    kf: &Known,
+    cfg: &Config,
+    nodes: &[Node],
+    jid: &mut u64,
+    stats: &mut Stats,
+    violations: &mut Vec<(Violation, String)>,
+    known_lines: &mut Vec<String>,
+) {
+    let mk = |jid: &mut u64, ops: Vec<Op>| -> Job {
+        *jid += 1;
+        Job { id: *jid, cfg: cfg.clone(), ops, want_digest: false, digest_each: false, want_listing: false, isolate: spec.isolate }
+    };
+    // (node index, kind, peek index, suffix index)
+    #[derive(Clone, Copy, PartialEq)]
+    enum Kind {
+        Base,
+        WithPeek,
+        Twin,
+    }
+    let mut jobs: Vec<Job> = Vec::new();
+    let mut meta: Vec<(usize, Kind, usize, usize)> = Vec::new();
+    let mut peeks_of: Vec<Vec<Op>> = Vec::new();
+    for (ni, node) in nodes.iter().enumerate() {
+        let peeks = (ps.peeks)(&node.model);
+        for (si, suf) in ps.suffixes.iter().enumerate() {
+            let mut ops = node.ops.clone();
+            ops.extend(suf.iter().cloned());
+            jobs.push(mk(jid, ops));
+            meta.push((ni, Kind::Base, 0, si));
+            for (pi, p) in peeks.iter().enumerate() {
+                let mut ops = node.ops.clone();
+                ops.push(p.clone());
+                ops.extend(suf.iter().cloned());
+                jobs.push(mk(jid, ops));
+                meta.push((ni, Kind::WithPeek, pi, si));
+            }
+        }
+        for (pi, p) in peeks.iter().enumerate() {
+            if let Some(tw) = consuming_twin(p) {
+                let mut ops = node.ops.clone();
+                ops.push(p.clone());
+                ops.push(tw);
+                jobs.push(mk(jid, ops));
+                meta.push((ni, Kind::Twin, pi, 0));
+            }
+        }
+        peeks_of.push(peeks);
+    }
+    let mut pos = 0usize;
+    let chunk = 4000usize;
+    let mut base_res: std::collections::HashMap<(usize, usize), JobResult> = std::collections::HashMap::new();
+    while pos < jobs.len() {
+        let end = (pos + chunk).min(jobs.len());
+        let results = pool.run(jobs[pos..end].to_vec());
+        for (k, res) in results.into_iter().enumerate() {
+            let idx = pos + k;
+            let (ni, kind, pi, si) = meta[idx];
+            let job = &jobs[idx];
+            let node = &nodes[ni];
+            stats.transitions += 1;
+            let hl = node.ops.len();
+            let mut found: Option<Discrepancy> = None;
+            match kind {
+                Kind::Base => {
+                    base_res.insert((ni, si), res);
+                    continue;
+                }
+                Kind::WithPeek => {
+                    let peek = &peeks_of[ni][pi];
+                    if res.status != "ok" {
+                        found = Some(Discrepancy {
+                            class: "crash",
+                            detail: format!("engine process {} with non-consuming op {}", res.status, peek.short()),
+                            pure_loss: false, pure_redelivery: false,
+                        });
+                    } else if let Some(base) = base_res.get(&(ni, si)) {
+                        if base.status == "ok" && res.obs.len() == base.obs.len() + 1 {
+                            // model check of the peek itself (content oracles)
+                            let mut m = node.model.clone();
+                            let ds = m.step(peek, &res.obs[hl]);
+                            if let Some(x) = ds.into_iter().find(|x| {
+                                matches!(x.class, "offset.content" | "read.order" | "read.empty" | "read.panic" | "read.err" | "read.cap" | "read.budget" | "count")
+                            }) {
+                                found = Some(Discrepancy { pure_loss: false, pure_redelivery: false, class: "peek.result", detail: format!("{}: {}", peek.short(), x.detail) });
+                            }
+                            if found.is_none() {
+                                for j in 0..(base.obs.len() - hl) {
+                                    let a = &base.obs[hl + j];
+                                    let b = &res.obs[hl + 1 + j];
+                                    if a.res != b.res || a.counts != b.counts {
+                                        found = Some(Discrepancy { pure_loss: false, pure_redelivery: false,
+                                            class: "peek.changed",
+                                            detail: format!(
+                                                "after {} the suffix op {} observes {} / counts {:?}; without it {} / counts {:?}",
+                                                peek.short(),
+                                                job.ops[hl + 1 + j].short(),
+                                                brief(&b.res),
+                                                b.counts,
+                                                brief(&a.res),
+                                                a.counts
+                                            ),
+                                        });
+                                        break;
+                                    }
+                                }
+                            }
+                        }
+                    }
+                }
+                Kind::Twin => {
+                    let peek = &peeks_of[ni][pi];
+                    if res.status == "ok" && res.obs.len() == hl + 2 && res.obs[hl].res != res.obs[hl + 1].res {
+                        found = Some(Discrepancy { pure_loss: false, pure_redelivery: false,
+                            class: "peek.differs",
+                            detail: format!(
+                                "{} returned {} but the immediately following consuming read returned {}",
+                                peek.short(),
+                                brief(&res.obs[hl].res),
+                                brief(&res.obs[hl + 1].res)
+                            ),
+                        });
+                    }
+                }
+            }
+            if let Some(x) = found {
+                if violations.len() < 6 {
+                    handle_bad(pool, spec, kf, cfg, job, &res, &node.model, x, job.ops.len().saturating_sub(1), stats, violations, known_lines);
+                }
+            }
+        }
+        pos = end;
+    }
+}
+
+
+/// Extend every state by each tail and step the model through it.
+#[allow(clippy::too_many_arguments)]
+fn run_tails(
+    pool: &Pool,
+    spec: &Spec,
+    kf: &Known,
+    cfg: &Config,
+    nodes: &[Node],
+    jid: &mut u64,
+    stats: &mut Stats,
+    violations: &mut Vec<(Violation, String)>,
+    known_lines: &mut Vec<String>,
+) {
+    let mut jobs: Vec<Job> = Vec::new();
+    let mut meta: Vec<(usize, usize)> = Vec::new();
+    for (ni, node) in nodes.iter().enumerate() {
+        for (ti, tail) in spec.tails.iter().enumerate() {
+            let mut ops = node.ops.clone();
+            ops.extend(tail.iter().cloned());
+            *jid += 1;
+            jobs.push(Job {
+                id: *jid,
+                cfg: cfg.clone(),
+                ops,
+                want_digest: false,
+                digest_each: false,
+                want_listing: false,
+                isolate: spec.isolate,
+            });
+            meta.push((ni, ti));
+        }
+    }
+    for (cjobs, cmeta) in jobs.chunks(4000).zip(meta.chunks(4000)) {
+        let results = pool.run(cjobs.to_vec());
+        for ((job, res), (ni, _ti)) in cjobs.iter().zip(results.iter()).zip(cmeta.iter()) {
+            stats.transitions += 1;
+            let node = &nodes[*ni];
+            let hl = node.ops.len();
+            if res.status.starts_with("internal") {
+                stats.machinery_errors.push(format!("{}: {}", res.status, hist_str(&job.ops)));
+                continue;
+            }
+            let mut bad: Option<Discrepancy> = None;
+            let mut bad_at = job.ops.len().saturating_sub(1);
+            let mut model = node.model.clone();
+            if res.status != "ok" {
+                bad = Some(Discrepancy { pure_loss: false, pure_redelivery: false, class: "crash", detail: format!("engine process {} in tail", res.status) });
+            } else if res.obs.len() == job.ops.len() {
+                for i in hl..job.ops.len() {
+                    let pre = model.clone();
+                    let ds = model.step(&job.ops[i], &res.obs[i]);
+                    let foreign_core = ds.iter().any(|x| is_core(x.class) && !spec.owned.contains(&x.class));
+                    if foreign_core {
+                        break;
+                    }
+                    if let Some(x) = ds.into_iter().find(|x| owned(spec, &pre, &job.ops[..=i], x)) {
+                        bad = Some(x);
+                        bad_at = i;
+                        break;
+                    }
+                }
+            }
+            if let Some(x) = bad {
+                if violations.len() < 6 {
+                    handle_bad(pool, spec, kf, cfg, job, res, &node.model, x, bad_at, stats, violations, known_lines);
+                }
+            }
+        }
+    }
 }
